@@ -41,11 +41,16 @@ func (ls *LogScrubber) Unlock() { (*ls).lock.Unlock() }
 func Scrub(b []byte) []byte {
 	scrubbedBytes := b
 	for _, pattern := range scrubberPatterns {
-		// this is a workaround since go does not yet support look ahead or look
-		// behind for regular expressions.
-		scrubbedBytes = pattern.ReplaceAllFunc(scrubbedBytes, func(b []byte) []byte {
-			return addressRegexp.ReplaceAll(b, []byte("[scrubbed]"))
-		})
+		// A match includes the delimiters around the address, so two addresses
+		// that share a delimiter cannot both be found in one pass: repeat until
+		// nothing matches. Every pass removes an address, so this terminates.
+		for pattern.Match(scrubbedBytes) {
+			// this is a workaround since go does not yet support look ahead or look
+			// behind for regular expressions.
+			scrubbedBytes = pattern.ReplaceAllFunc(scrubbedBytes, func(b []byte) []byte {
+				return addressRegexp.ReplaceAll(b, []byte("[scrubbed]"))
+			})
+		}
 	}
 	return scrubbedBytes
 }
@@ -56,13 +61,15 @@ func (ls *LogScrubber) Write(b []byte) (n int, err error) {
 
 	n = len(b)
 	ls.buffer = append(ls.buffer, b...)
+	// scrub and write one complete line at a time, so that the result does
+	// not depend on how the lines were split across calls to Write
 	for {
-		i := bytes.LastIndexByte(ls.buffer, '\n')
+		i := bytes.IndexByte(ls.buffer, '\n')
 		if i == -1 {
 			return
 		}
-		fullLines := ls.buffer[:i+1]
-		_, err = ls.Output.Write(Scrub(fullLines))
+		fullLine := ls.buffer[:i+1]
+		_, err = ls.Output.Write(Scrub(fullLine))
 		if err != nil {
 			return
 		}
